@@ -7,7 +7,7 @@ from ..astutil import (dotted, const, NOCONST, params, local_defs, OPAQUE, is_se
                        same_expr, enclosing_function, enclosing_class)
 from ..dataflow import expand, call_arg, is_call_to, uses_of, reaches
 from ..effects import class_writers, is_const
-from ..cfg import build
+from ..cfg import build, truthy_atom
 from ..tablerules import row_calls
 from .. import a3common
 from ..selftest import Mutant, Rewrite
@@ -261,9 +261,8 @@ def r4(tree, rep):
             ok = ok and good
         rep.check("C01.R4", "%s.derive_key returns derive_key(self._key, to_bytes(purpose), length)" % cls, ok, site(fn, WH),
                   key="C01.R4:%s.derive_key" % cls)
-        guards = [n for n in g.nodes(lambda s: isinstance(s, ast.If)) if isinstance(g.stmt[n].test, ast.UnaryOp)
-                  and isinstance(g.stmt[n].test.op, ast.Not) and is_self_attr(g.stmt[n].test.operand, "_key")]
-        ok = bool(guards) and all(g.branch_always_raises(x, 'T') for x in guards) and not g.guarded_by(guards, rets, 'F')
+        have_key = truthy_atom(lambda e: is_self_attr(e, "_key"))
+        ok = g.when_always_raises(have_key, False) and not g.only_when(rets, have_key, True)
         rep.check("C01.R4", "%s.derive_key raises when no key is known" % cls, ok, site(fn, WH), key="C01.R4:%s.derive_key:nokey" % cls)
         own, foreign = class_writers(tree, cls, "_key")
         good = bool(own) and not foreign
@@ -328,21 +327,32 @@ def r5_r6(tree, prog, rep):
     ok = len(good_n) >= 1 and len(bad_n) >= 1 and len(handlers) >= 1 and len(dec) == 1
     if ok:
         # good is only reachable through the decrypt call's normal continuation, never from a handler
+        # (paths contradicting a local sentinel - `plaintext = None` in the handler, `if plaintext is None` after - are infeasible)
         ok = not g.precedes(dec, good_n)
         for h in handlers:
-            ok = ok and not (set(g.reach(h)) & set(good_n))
-            ok = ok and g.must_pass(bad_n, start=h, to=[g.exit], explicit_only=True)
+            ok = ok and not (g.reach_feasible(h) & set(good_n))
+            ok = ok and g.exit not in g.reach_feasible(h, avoid_nodes=bad_n, explicit_only=True)
         # the exceptional edge of the decrypt statement does not reach good
         for d in dec:
             exc_t = [y for (y, lab) in g.succ[d] if lab == 'exc']
-            ok = ok and not (set(g.reach(exc_t)) & set(good_n))
+            ok = ok and not (g.reach_feasible(exc_t) & set(good_n))
     rep.check("C01.R6", "Receive.got_message: got_message_good only after decrypt_data returned; the CryptoError handler "
               "reports got_message_bad and never falls through to good", ok, site(gm, R.file), key="C01.R6:Receive.got_message",
               what="an undecryptable message can reach got_message_good / is not reported as bad")
     if ok:
         # the plaintext handed on is the decrypt result; the key comes from derive_phase_key(self._key, ...)
         gc = [c for c in ast.walk(gm) if isinstance(c, ast.Call) and dotted(c.func) == "self.got_message_good"][0]
-        pt = expand(gm, gc.args[1]) if len(gc.args) > 1 else None
+        pa = gc.args[1] if len(gc.args) > 1 else None
+        cands = []
+        if isinstance(pa, ast.Name):
+            # every definition of the local is the decrypt result, or the handler's None sentinel (excluded above)
+            defs = [d for d in local_defs(gm, pa.id)]
+            cands = [d for d in defs if not (isinstance(d, ast.Constant) and d.value is None)]
+            if len(cands) != len(defs) and len(cands) != 1:
+                cands = []
+        elif pa is not None:
+            cands = [pa]
+        pt = expand(gm, cands[0]) if len(cands) == 1 and cands[0] is not OPAQUE else None
         ok2 = isinstance(pt, ast.Call) and dotted(pt.func) == "decrypt_data" and len(pt.args) == 2
         if ok2:
             dkc = pt.args[0]
